@@ -139,6 +139,14 @@ Section Algebra.
       - rewrite app_nil_r. cbn. assumption.
       - rewrite big1_app by congruence. rewrite (big1_cons v (z :: zs)) by congruence. rewrite Hv. reflexivity.
     Qed.
+
+    Lemma big1_pair v x y R : v == f x y -> big1 A f (v :: R) == big1 A f (x :: y :: R).
+    Proof.
+      intros Hv. destruct R as [|z zs].
+      - cbn. assumption.
+      - rewrite (big1_cons v (z :: zs)), (big1_cons x (y :: z :: zs)), (big1_cons y (z :: zs)) by congruence.
+        rewrite Hv. rewrite fA. reflexivity.
+    Qed.
   End Big1.
 
   Lemma bigU_big1 l : l <> [] -> bigU A l == big1 A (union A) l.
@@ -320,11 +328,7 @@ Section Algebra.
           transitivity (big1 A f ((lden A (simple_boolean A o (fst a) (fst b))) :: map (fun e : entry A => lden A (fst e)) (h2 ++ tmp))).
           { apply (big1_perm f AC). rewrite <- Permutation_middle, app_nil_r. reflexivity. }
           change ((a :: b :: h2) ++ tmp) with (a :: b :: (h2 ++ tmp)). cbn [map].
-          set (R := map (fun e : entry A => lden A (fst e)) (h2 ++ tmp)).
-          destruct R as [|z zs].
-          + cbn. apply lden_simple_boolean.
-          + rewrite !(big1_cons f) by congruence. rewrite lden_simple_boolean.
-            fold f. rewrite (proj1 (proj2 AC)). reflexivity.
+          apply (big1_pair f AC). apply lden_simple_boolean.
       Qed.
 
       Lemma bb_loop_ok fuel : forall hp serial, hp <> [] -> length hp <= S fuel ->
@@ -337,7 +341,7 @@ Section Algebra.
           cbn [bb_loop].
           destruct (bb_round A sz o 4 (x :: y :: hp) [] serial) as [[h' tmp'] s'] eqn:E.
           destruct (bb_round_ok 4 _ _ _ _ _ _ E) as (N1 & Q1 & L1 & L2).
-          { congruence. }
+          { cbn; congruence. }
           rewrite app_nil_r in *.
           destruct (IH (h' ++ tmp') s' N1) as (r & R1 & R2).
           { specialize (L2 ltac:(congruence) ltac:(cbn; lia)). lia. }
@@ -354,14 +358,13 @@ Section Algebra.
           set (L := a :: b :: c :: l).
           destruct (bb_loop_ok (length L) (combine L (seq 0 (length L))) (length L)) as (r & R1 & R2).
           { subst L; cbn; congruence. }
-          { rewrite combine_length, seq_length. lia. }
-          exists r. split; [exact R1|]. rewrite R2. unfold esem.
-          assert (E : map (fun e : entry A => lden A (fst e)) (combine L (seq 0 (length L))) = map (lden A) L).
-          { rewrite <- (map_map fst (lden A)). f_equal.
-            generalize (seq 0 (length L)) (seq_length (length L) 0). clear.
+          { etransitivity; [apply Nat.eq_le_incl, combine_length|rewrite seq_length; lia]. }
+          exists r. split; [exact R1|].
+          assert (E : esem (combine L (seq 0 (length L))) = map (lden A) L).
+          { unfold esem. generalize (seq 0 (length L)) (seq_length (length L) 0). clear.
             induction L as [|x L IH]; intros s Hs; [reflexivity|].
             destruct s as [|n s]; [discriminate|]. cbn. f_equal. apply IH. cbn in Hs. lia. }
-          rewrite E. reflexivity.
+          rewrite E in R2. exact R2.
       Qed.
     End Loop.
 
